@@ -43,6 +43,91 @@ def build(case):
     return net
 
 
+# --------------------------------------------------------------------------------------------------------
+# predicates that recompute exactly what each recorded defect does (known_findings.d/C20.json)
+# --------------------------------------------------------------------------------------------------------
+DBL_MIN = 2.2250738585072014e-308
+
+
+def _is_inf(x):
+    return isinstance(x, (float, np.floating)) and np.isinf(x)
+
+
+def _missing(x):
+    return x is None or x is pd.NA or (isinstance(x, (float, np.floating)) and np.isnan(x))
+
+
+def _x_json_inf(case, d, fmt):
+    """pandas.DataFrame.to_json writes +-inf as null: every infinite float inside a DataFrame (tables, the DFData frame of a
+    controller, lists in object cells) comes back as the missing value"""
+    return fmt.startswith("json") and d["clause"] in ("value", "controller") and _is_inf(d.get("_a")) and _missing(d.get("_b"))
+
+
+def _x_json_range(case, d, fmt):
+    """DataFrame.to_json(double_precision=15) prints 15 significant digits; read_json(precise_float=True) rejects the text when
+    strtod reports ERANGE: the rounded literal overflows (1.79769313486232e308) or is subnormal"""
+    if not (fmt.startswith("json") and d["clause"] == "roundtrip_raises" and d.get("a") == "ValueError" and "Range error" in d.get("b", "")):
+        return False
+    for dev in case["devs"]:
+        if dev[0] in ("cell", "dfdata", "pwl") and dev[-1].startswith("f_"):
+            v = gp.val(dev[-1])
+            if v != v or np.isinf(v):
+                continue
+            try:
+                f = float("%.15g" % v)
+            except OverflowError:
+                return True
+            if np.isinf(f) or (v != 0 and abs(f) < DBL_MIN):
+                return True
+    return False
+
+
+def _x_int64na(case, d, fmt):
+    """nullable Int64 column that contains <NA>: the values travel as float64 (JSON: null forces a float parse; pickle file:
+    DataFrame(data=[..., <NA>, ...]) infers float) -> integers beyond 2**53 are rounded"""
+    a, b = d.get("_a"), d.get("_b")
+    if d["clause"] != "value" or fmt not in ("json_str", "json_file", "json_buf", "json_enc", "pickle_file"):
+        return False
+    if not any(dev[0] == "col" and dev[2] == "Int64NA" for dev in case["devs"]) or ".c_Int64NA[" not in d["where"]:
+        return False
+    return isinstance(a, (int, np.integer)) and isinstance(b, (int, np.integer)) and int(float(int(a))) == int(b) and int(a) != int(b)
+
+
+def _x_date_named(case, d, fmt):
+    """pandas.read_json(convert_dates=True) converts columns whose LABEL looks like a date ('date', 'timestamp', '*_at', ...)"""
+    col = d["where"].split(".")[1].split("[")[0] if "." in d["where"] else ""
+    return fmt.startswith("json") and col in ("date", "timestamp") and d["clause"] in ("cell_type", "dtype", "value")
+
+
+def _x_name_module(case, d, fmt):
+    """json_pandapowernet() json.loads()es every string attribute of the net that contains '_module'"""
+    return (fmt.startswith("json") and d["clause"] == "roundtrip_raises" and d.get("a") == "JSONDecodeError"
+            and any(dev[0] == "attr" and isinstance(gp.val(dev[2]), str) and "_module" in gp.val(dev[2]) for dev in case["devs"]))
+
+
+def _x_pickle_index_name(case, d, fmt):
+    """to_pickle(net, path) stores DataFrame.to_dict('split'), which has no slot for index.name"""
+    return fmt == "pickle_file" and d["clause"] == "index_name" and d.get("_b") is None and d.get("_a") is not None
+
+
+def _x_excel_na_strings(case, d, fmt):
+    """from_excel uses pandas.read_excel with the default NA strings: a text cell 'nan', 'None', 'null', 'NA' ... is read as missing"""
+    return fmt == "excel" and d["clause"] == "value" and isinstance(d.get("_a"), str) and d["_a"] in g_io.PANDAS_NA_STRINGS \
+        and _missing(d.get("_b"))
+
+
+def _x_sqlite_dc_geo(case, d, fmt):
+    """to_dict_of_dfs json.dumps()es the geo column of every table, from_dict_of_dfs decodes it for 'bus' and 'line' only:
+    a missing geo of bus_dc / line_dc comes back as the string 'null' (Excel hides it: 'null' is an NA string there)"""
+    return fmt == "sqlite" and d["where"].split("[")[0] in ("bus_dc.geo", "line_dc.geo") and _missing(d.get("_a")) and d.get("_b") == "null"
+
+
+EXPLAIN = {"json_inf_as_null": _x_json_inf, "json_double_range": _x_json_range, "int64na_via_float": _x_int64na,
+           "json_date_named_column": _x_date_named, "json_name_module": _x_name_module,
+           "pickle_index_name_dropped": _x_pickle_index_name, "excel_na_strings": _x_excel_na_strings,
+           "sqlite_dc_geo_null": _x_sqlite_dc_geo}
+
+
 def _tokens(case, diff, fmt):
     toks = ["fmt=" + fmt, "family=" + ("json" if fmt.startswith("json") else "pickle" if fmt.startswith("pickle") else fmt)]
     w = diff.get("where", "")
@@ -61,8 +146,10 @@ def _tokens(case, diff, fmt):
     return sorted(set(toks))
 
 
-# predicates recomputing exactly what a recorded defect does (filled after triage, see known_findings.d/C20.json)
-EXPLAIN = {}
+def _viol(case, d, fmt, extra=()):
+    toks = _tokens(case, d, fmt) + list(extra)
+    pub = {k: v for k, v in d.items() if not k.startswith("_")}
+    return core.violation(d["clause"], pub, tokens=toks, klass=fmt + "/" + d["clause"])
 
 
 def run_case(case):
@@ -77,7 +164,7 @@ def run_case(case):
     orig = gf.clone(net)
     try:
         loaded = g_io.roundtrip(net, fmt)
-    except g_io.Unavailable as e:
+    except g_io.Unavailable:
         out["outcome"] = "unavailable"
         out["sig"] = None
         return out
@@ -86,15 +173,15 @@ def run_case(case):
         tb = traceback.extract_tb(e.__traceback__)
         site = next(("%s:%d" % (os.path.basename(f.filename), f.lineno) for f in reversed(tb) if "pandapower" in f.filename), "?")
         d = {"clause": "roundtrip_raises", "where": site, "a": type(e).__name__, "b": str(e)[:160]}
-        out["violations"].append(core.violation("roundtrip_raises", d, tokens=_tokens(case, d, fmt) + ["exc=" + type(e).__name__],
-                                                klass=fmt + "/" + type(e).__name__))
+        out["violations"].append(_viol(case, d, fmt, ["exc=" + type(e).__name__]))
         out["outcome"] = "raised"
         out["sig"] = None
         return out
     # saving must not modify the net that was saved
     cm = g_io.compare_full(orig, net, "pickle")
     for d in cm.diffs[:3]:
-        out["violations"].append(core.violation("save_mutates_input", d, tokens=_tokens(case, d, fmt), klass=fmt + "/mutate"))
+        d["clause"] = "save_mutates_input"
+        out["violations"].append(_viol(case, d, fmt))
     if fmt in XS_FORMATS:
         c = g_io.compare_elements(orig, loaded, fmt)
     else:
@@ -105,56 +192,68 @@ def run_case(case):
         if key in seen:
             continue
         seen.add(key)
-        out["violations"].append(core.violation(d["clause"], d, tokens=_tokens(case, d, fmt), klass=fmt + "/" + d["clause"]))
+        out["violations"].append(_viol(case, d, fmt))
     out["counts"]["cells_compared"] = c.cells
-    out["counts"]["float_cells_abs_only_within_1e-14"] = c.rel_only
-    # calculation results
-    pa, pb = g_io.pf_view(orig), g_io.pf_view(loaded)
-    oa = g_io.run_pf(pa)
-    try:
+    out["counts"]["float_cells_beyond_1e-14_relative_but_within_absolute"] = c.rel_only
+    # calculation results: judged when the data itself came back (otherwise the difference is already reported above)
+    if not c.diffs:
+        pa, pb = g_io.pf_view(orig), g_io.pf_view(loaded)
+        oa = g_io.run_pf(pa)
         ob = g_io.run_pf(pb)
-    except BaseException as e:
-        ob = "crash_" + type(e).__name__
-    out["counts"]["pf_" + oa] = 1
-    if fmt in XS_FORMATS and (oa != "ok" or c.diffs):
-        pass    # only judged when the element data itself came back
-    elif oa != ob:
-        d = {"clause": "results", "where": "runpp outcome", "a": oa, "b": ob}
-        out["violations"].append(core.violation("results", d, tokens=_tokens(case, d, fmt), klass=fmt + "/results"))
-    elif oa == "ok":
-        cr = g_io.compare_results(pa, pb, fmt)
-        for d in cr.diffs[:2]:
-            out["violations"].append(core.violation("results", d, tokens=_tokens(case, d, fmt), klass=fmt + "/results"))
+        out["counts"]["pf_" + oa] = 1
+        if oa != ob:
+            d = {"clause": "results", "where": "runpp outcome", "a": oa, "b": ob}
+            out["violations"].append(_viol(case, d, fmt))
+        elif oa == "ok":
+            cr = g_io.compare_results(pa, pb, fmt)
+            for d in cr.diffs[:2]:
+                out["violations"].append(_viol(case, d, fmt))
+    else:
+        oa = "skipped"
     out["outcome"] = "ok"
     out["sig"] = "%s|%s|pf=%s" % (fmt, core.dhash(case["devs"]), oa)
     return out
 
 
+def _xs_ok(d):
+    """deviations whose subject is element-table data that a column-typed cell store can hold at all"""
+    if _targets_list_tables(d) or d[0] not in ("cell", "col", "index", "geo", "results", "attr"):
+        return False
+    if d[0] == "col" and d[2] in ("mixed", "intname"):      # per-cell python types / non-string labels: no column store has them
+        return False
+    return True
+
+
 def gen_cases(tier):
     cases = []
-    lvl = "quick" if tier == "quick" else "thorough"
-    m1 = gp.menu(lvl)
-    core_menu = gp.menu("core") if tier == "quick" else gp.menu("quick")
-    transports = [d for d in gp.menu("core") if d[0] in ("cell", "attr", "col", "index", "results")][::3]
+    quick = tier == "quick"
+    m1 = gp.menu("quick" if quick else "thorough")
+    core_menu = gp.menu("core")
     # k = 0
     for fmt in g_io.FORMATS:
         cases.append({"fmt": fmt, "devs": []})
     # k = 1
-    for fmt in ("json_str", "pickle_file", "pickle_buf"):
+    for fmt in ("json_str", "pickle_file"):
         for d in m1:
             cases.append({"fmt": fmt, "devs": [d]})
+    for d in (core_menu if quick else m1):
+        cases.append({"fmt": "pickle_buf", "devs": [d]})
+    transports = [d for d in core_menu if d[0] in ("cell", "attr", "col", "index", "results")]
     for fmt in ("json_file", "json_buf", "json_enc"):      # same encoder / decoder as json_str: transport only
-        for d in (transports if tier == "quick" else gp.menu("core")):
+        for d in (transports[::9] if quick else core_menu):
             cases.append({"fmt": fmt, "devs": [d]})
-    xs_menu = [d for d in (gp.menu("core") if tier == "quick" else m1) if not _targets_list_tables(d)
-               and d[0] in ("cell", "col", "index", "geo", "results", "attr")]
+    xs_menu = [d for d in (core_menu if quick else gp.menu("quick")) if _xs_ok(d)]
+    if quick:
+        xs_menu = xs_menu[::3]
     for fmt in XS_FORMATS:
         for d in xs_menu:
             cases.append({"fmt": fmt, "devs": [d]})
     # k = 2
-    for pair in gp.pairs(core_menu):
-        for fmt in ("json_str", "pickle_file"):
-            cases.append({"fmt": fmt, "devs": pair})
+    for pair in gp.pairs(gp.MINI if quick else core_menu[::2]):
+        cases.append({"fmt": "json_str", "devs": pair})
+    if not quick:
+        for pair in gp.pairs(gp.MINI):
+            cases.append({"fmt": "pickle_file", "devs": pair})
     return cases
 
 
@@ -163,14 +262,19 @@ def explore(tier, seed):
     core.warm(pf=True)
     gf.full()
     cases = gen_cases(tier)
-    rep.rule = ("E1: the full net x format x every subset of <=2 slot/value deviations (k=1: the %s menu on json_str, pickle_file, "
-                "pickle_buf, a transport sub-menu on json_file/json_buf/json_enc, the element-data sub-menu on excel/sqlite; k=2: all "
-                "pairs of the %s menu on json_str and pickle_file); a case is distinct+non-trivial when save and load both returned, "
-                "keyed by (format, deviation-set hash, power-flow outcome)" % (
-                    "quick" if tier == "quick" else "thorough", "core" if tier == "quick" else "quick"))
-    rep.extra["bound_k"] = 2
+    kmax = os.environ.get("VERIF_K")       # triage aid: run the same enumeration at a smaller bound (recorded in the evidence)
+    if kmax:
+        cases = [c for c in cases if len(c["devs"]) <= int(kmax)]
+        rep.extra["restricted_by_env_VERIF_K"] = int(kmax)
+    rep.rule = ("E1: the full net x format x every subset of <=2 slot/value deviations (k=1: the %s menu on json_str and pickle_file, "
+                "the %s menu on pickle_buf, a transport sub-menu on json_file/json_buf/json_enc, the element-data sub-menu on "
+                "excel/sqlite; k=2: all pairs of the %s menu on json_str (thorough: also of the mini menu on pickle_file); a case is "
+                "distinct+non-trivial when save and load both returned, keyed by (format, deviation-set hash, power-flow outcome)" % (
+                    "quick" if tier == "quick" else "thorough", "core" if tier == "quick" else "thorough",
+                    "mini" if tier == "quick" else "every-second-entry-of-core"))
+    rep.extra["bound_k"] = min(2, int(kmax)) if kmax else 2
     rep.extra["menu_k1"] = len(gp.menu("quick" if tier == "quick" else "thorough"))
-    rep.extra["menu_pairs"] = len(gp.menu("core") if tier == "quick" else gp.menu("quick"))
+    rep.extra["menu_pairs"] = len(gp.MINI if tier == "quick" else gp.menu("core")[::2])
     rep.extra["formats"] = list(g_io.FORMATS)
     rep.extra["cases"] = len(cases)
     core.run_cases(rep, run_case, cases)
